@@ -13,8 +13,22 @@ including exact boundary instants, for the plain, flex and Merkle whitelists.
 
 Every theorem is over an arbitrary `v : Variant` (plain / flex / Merkle), arbitrary senders, arbitrary
 arguments, arbitrary block times and — for the history statements — arbitrary `List Op` (which also contains
-admin-list changes, freezes and the environment's `AddMembers`/`IncreaseMemberLimit`), by induction.
+admin-list changes, freezes and the environment's messages: `AddMembers`, `IncreaseMemberLimit`,
+`UpdatePerAddressLimit`, `migrate`, and any message variant discovered in the crates' JSON schemas), by induction.
 `GENESIS` is `sg_utils::GENESIS_MINT_START_TIME`, regenerated from the source on every run.
+
+What is proved here and what is only validated (round 3, be honest):
+* proved for the model, for all inputs: well-formedness, creation, "once started" (start frozen, end only brought
+  forward, `RemoveMembers` rejected), frame, flag monotonicity, non-admin histories.
+* the **flags clause** (`C12_flags`) says that the four model expressions — written separately, one per Rust query —
+  are the expressions the property names. That the Rust queries compute these expressions *on the stored schedule* is
+  NOT derived: it is validated by the harness (monitors `query/*` compare every query answer with the schedule read
+  from the contract's storage and the harness's own clock, at every line; plus model/implementation correspondence).
+* "members can no longer be removed" is proved in the form "the `RemoveMembers` message is rejected" (membership is
+  environment in this aspect model). That no *other* entry point removes a member after start is validated by the
+  harness only (monitor `member-lost-after-start` over the harness's own member bookkeeping, under every message
+  variant found in the crates' schemas and `migrate`).
+* `envOk`, `present`, and the outcomes of the environment's messages are witnesses taken from the implementation.
 -/
 namespace LP
 open LP.WlSchedule
@@ -29,13 +43,13 @@ def WlStarted (s : State) : Prop := s.start ≤ s.now
 
 /-- instantiate succeeds exactly when the non-schedule checks pass and
 `start ≤ end`, `now < start`, `genesis ≤ start`; the created schedule is the requested one. -/
-theorem C12_instantiate_iff (v : Variant) (now : Nat) (funds : List Coin) (m : InstMsg) (s : State) :
-    instantiate v now funds m = .ok s ↔
-      (envChecks v funds m = true ∧ m.start ≤ m.end_ ∧ now < m.start ∧ GENESIS ≤ m.start) ∧
+theorem C12_instantiate_iff (v : Variant) (now : Nat) (envOk : Bool) (m : InstMsg) (s : State) :
+    instantiate v now envOk m = .ok s ↔
+      (envOk = true ∧ m.start ≤ m.end_ ∧ now < m.start ∧ GENESIS ≤ m.start) ∧
       s = { now := now, start := m.start, end_ := m.end_, perAddr := (if v = .flex then 0 else m.perAddr),
             admins := m.admins, adminsMutable := m.adminsMutable } := by
   unfold instantiate
-  by_cases h0 : envChecks v funds m = true
+  by_cases h0 : envOk = true
   · by_cases h1 : m.start > m.end_
     · simp [h0, h1]; omega
     · by_cases h2 : now ≥ m.start
@@ -49,26 +63,26 @@ theorem C12_instantiate_iff (v : Variant) (now : Nat) (funds : List Coin) (m : I
   · simp [h0]
 
 /-- "it is created only with a start in the future" -/
-theorem C12_created_future (v : Variant) (now : Nat) (funds : List Coin) (m : InstMsg) (s : State)
-    (h : instantiate v now funds m = .ok s) : s.now = now ∧ now < s.start := by
-  obtain ⟨⟨_, _, h2, _⟩, rfl⟩ := (C12_instantiate_iff v now funds m s).1 h
+theorem C12_created_future (v : Variant) (now : Nat) (envOk : Bool) (m : InstMsg) (s : State)
+    (h : instantiate v now envOk m = .ok s) : s.now = now ∧ now < s.start := by
+  obtain ⟨⟨_, _, h2, _⟩, rfl⟩ := (C12_instantiate_iff v now envOk m s).1 h
   exact ⟨rfl, h2⟩
 
 /-- a freshly created whitelist satisfies `genesis ≤ start ≤ end` and has not started -/
-theorem C12_instantiate_wellformed (v : Variant) (now : Nat) (funds : List Coin) (m : InstMsg) (s : State)
-    (h : instantiate v now funds m = .ok s) : WlSInv s ∧ ¬ WlStarted s := by
-  obtain ⟨⟨_, h1, h2, h3⟩, rfl⟩ := (C12_instantiate_iff v now funds m s).1 h
+theorem C12_instantiate_wellformed (v : Variant) (now : Nat) (envOk : Bool) (m : InstMsg) (s : State)
+    (h : instantiate v now envOk m = .ok s) : WlSInv s ∧ ¬ WlStarted s := by
+  obtain ⟨⟨_, h1, h2, h3⟩, rfl⟩ := (C12_instantiate_iff v now envOk m s).1 h
   exact ⟨⟨h3, h1⟩, by unfold WlStarted; simp only []; omega⟩
 
 /-- whatever the non-schedule checks say, a start that is not strictly in the future, is after the end, or is
 before genesis is rejected (each of the three time checks is necessary) -/
-theorem C12_instantiate_rejects (v : Variant) (now : Nat) (funds : List Coin) (m : InstMsg)
+theorem C12_instantiate_rejects (v : Variant) (now : Nat) (envOk : Bool) (m : InstMsg)
     (h : m.start ≤ now ∨ m.end_ < m.start ∨ m.start < GENESIS) :
-    (instantiate v now funds m).isOk = false := by
-  cases hi : instantiate v now funds m with
+    (instantiate v now envOk m).isOk = false := by
+  cases hi : instantiate v now envOk m with
   | error e => rfl
   | ok s =>
-    obtain ⟨⟨_, h1, h2, h3⟩, _⟩ := (C12_instantiate_iff v now funds m s).1 hi
+    obtain ⟨⟨_, h1, h2, h3⟩, _⟩ := (C12_instantiate_iff v now envOk m s).1 hi
     omega
 
 /-! ## Decision logic of the three gated messages (exact: accepted iff …, and what is written) -/
@@ -134,22 +148,23 @@ theorem C12_remove_iff (v : Variant) (s s' : State) (a : Addr) (present : Bool) 
           · intro h; exact h.2.symm
     · simp [hv, ha]
 
-/-- a sender who is not on the admin list can change nothing: every message of the model other than the
-block clock and the environment's own messages is rejected -/
+/-- a sender who is not on the admin list can change nothing: every signed message of the model is rejected
+(`UpdatePerAddressLimit` and the other environment messages carry their outcome as a witness and are outside this
+statement; C05 owns their gating) -/
 theorem C12_nonadmin_rejected (v : Variant) (s : State) (a : Addr) (h : isAdmin s a = false) (op : Op)
     (hop : (∃ t, op = .updateStart a t) ∨ (∃ t, op = .updateEnd a t) ∨ (∃ p, op = .removeMembers a p) ∨
-           (∃ n, op = .updatePerAddr a n) ∨ (∃ l, op = .updateAdmins a l) ∨ op = .freeze a) :
+           (∃ l, op = .updateAdmins a l) ∨ op = .freeze a) :
     (step v s op).isOk = false := by
-  rcases hop with ⟨t, rfl⟩ | ⟨t, rfl⟩ | ⟨p, rfl⟩ | ⟨n, rfl⟩ | ⟨l, rfl⟩ | rfl
+  rcases hop with ⟨t, rfl⟩ | ⟨t, rfl⟩ | ⟨p, rfl⟩ | ⟨l, rfl⟩ | rfl
   · simp [step, h, Except.isOk, Except.toBool]
   · simp [step, h, Except.isOk, Except.toBool]
   · by_cases hv : v = .merkle <;> simp [step, h, hv, Except.isOk, Except.toBool]
-  · by_cases hv : (v != .plain) = true <;> simp [step, h, hv, Except.isOk, Except.toBool]
   · simp [step, canModify, h, Except.isOk, Except.toBool]
   · simp [step, canModify, h, Except.isOk, Except.toBool]
 
 /-- frame: only `UpdateStartTime` / `UpdateEndTime` can change the schedule — per-address-limit updates,
-admin-list changes, member removals and the environment's messages leave `start` and `end` as they are
+admin-list changes, member removals and the environment's messages (`AddMembers`, `IncreaseMemberLimit`, `migrate`,
+schema-discovered variants) leave `start` and `end` as they are
 (and no message but the chain moves the clock) -/
 theorem C12_frame (v : Variant) (s s' : State) (op : Op) (h : step v s op = .ok s')
     (hs : ∀ a t, op ≠ .updateStart a t) (he : ∀ a t, op ≠ .updateEnd a t) :
@@ -160,15 +175,9 @@ theorem C12_frame (v : Variant) (s s' : State) (op : Op) (h : step v s op = .ok 
   | updateEnd a t => exact absurd rfl (he a t)
   | removeMembers a p =>
     obtain ⟨_, rfl⟩ := (C12_remove_iff v s s' a p).1 h; simp
-  | updatePerAddr a n =>
-    unfold step at h
-    by_cases h0 : (v != .plain) = true
-    · simp [h0] at h
-    · by_cases h1 : isAdmin s a = true
-      · by_cases h2 : n > MAX_PER_ADDRESS_LIMIT
-        · simp [h0, h1, h2] at h
-        · simp [h0, h1, h2] at h; subst h; simp
-      · simp [h0, h1] at h
+  | updatePerAddr n ok =>
+    cases ok <;> simp [step] at h
+    subst h; simp
   | updateAdmins a l =>
     unfold step at h
     by_cases h1 : canModify s a = true
@@ -231,11 +240,11 @@ theorem wl_run_induction (v : Variant) (P : State → Prop) (hstep : ∀ s op, P
 /-- "A whitelist's start time is never after its end time and is never before the genesis mint time":
 after **every** finite sequence of messages (by anyone, with any arguments, at any block times — the clock
 may even jump backwards) following a successful instantiate, `genesis ≤ start ≤ end`. -/
-theorem C12_wellformed (v : Variant) (now : Nat) (funds : List Coin) (m : InstMsg) (s0 : State)
-    (h : instantiate v now funds m = .ok s0) (ops : List Op) :
+theorem C12_wellformed (v : Variant) (now : Nat) (envOk : Bool) (m : InstMsg) (s0 : State)
+    (h : instantiate v now envOk m = .ok s0) (ops : List Op) :
     GENESIS ≤ (run v s0 ops).start ∧ (run v s0 ops).start ≤ (run v s0 ops).end_ :=
   wl_run_induction v WlSInv (fun s op => C12_step'_wellformed v s op) ops s0
-    (C12_instantiate_wellformed v now funds m s0 h).1
+    (C12_instantiate_wellformed v now envOk m s0 h).1
 
 /-- the same from any well-formed state (e.g. in the middle of a history) -/
 theorem C12_wellformed_from (v : Variant) (s : State) (hi : WlSInv s) (ops : List Op) : WlSInv (run v s ops) :=
@@ -295,7 +304,7 @@ theorem wl_step'_now (v : Variant) (s : State) (op : Op) : (step' v s op).now = 
         | updateStart a t => exact absurd ⟨a, t, rfl⟩ hs
         | updateEnd a t => exact absurd ⟨a, t, rfl⟩ he
         | removeMembers a p => exact hf.2.2 (fun _ e => by cases e)
-        | updatePerAddr a n => exact hf.2.2 (fun _ e => by cases e)
+        | updatePerAddr n ok => exact hf.2.2 (fun _ e => by cases e)
         | updateAdmins a l => exact hf.2.2 (fun _ e => by cases e)
         | freeze a => exact hf.2.2 (fun _ e => by cases e)
         | env ok => exact hf.2.2 (fun _ e => by cases e)
@@ -354,14 +363,14 @@ theorem wl_timeMonotone_append (v : Variant) (pre post : List Op) (s : State)
 anywhere; if the whitelist has started at the cut, then from there to the end of the history the start time is
 unchanged, the end time only moved forward in time order (never grew, never below start), and at the end a
 member removal is still impossible. -/
-theorem C12_started_frozen_history (v : Variant) (now : Nat) (funds : List Coin) (m : InstMsg) (s0 : State)
-    (h : instantiate v now funds m = .ok s0) (pre post : List Op) (hm : TimeMonotone s0.now (pre ++ post))
+theorem C12_started_frozen_history (v : Variant) (now : Nat) (envOk : Bool) (m : InstMsg) (s0 : State)
+    (h : instantiate v now envOk m = .ok s0) (pre post : List Op) (hm : TimeMonotone s0.now (pre ++ post))
     (hst : WlStarted (run v s0 pre)) :
     let mid := run v s0 pre
     let fin := run v s0 (pre ++ post)
     fin.start = mid.start ∧ fin.end_ ≤ mid.end_ ∧ mid.start ≤ fin.end_ ∧ WlStarted fin ∧
     ∀ a p, (step v fin (.removeMembers a p)).isOk = false := by
-  have hi := C12_wellformed_from v s0 (C12_instantiate_wellformed v now funds m s0 h).1 pre
+  have hi := C12_wellformed_from v s0 (C12_instantiate_wellformed v now envOk m s0 h).1 pre
   have hm2 := wl_timeMonotone_append v pre post s0 hm
   have hrun : run v s0 (pre ++ post) = run v (run v s0 pre) post := by simp [run, List.foldl_append]
   simp only [hrun]
@@ -375,10 +384,134 @@ theorem C12_end_can_be_brought_forward (v : Variant) (s : State) (a : Addr) (t :
     step v s (.updateEnd a t) = .ok { s with end_ := t } :=
   (C12_update_end_iff v s _ a t).2 ⟨⟨ha, h1, Or.inr h2⟩, rfl⟩
 
+/-! ## History-level frame, flag monotonicity, non-admin histories (round 3) -/
+
+/-- history-level frame: a history that contains neither `UpdateStartTime` nor `UpdateEndTime` — however many
+per-address-limit updates, removals, admin changes, freezes, clock steps, `AddMembers`, `IncreaseMemberLimit`,
+migrations or other environment messages it contains, accepted or not — leaves the schedule exactly as it was -/
+theorem C12_frame_history (v : Variant) (ops : List Op) (s : State)
+    (h : ∀ op ∈ ops, op.isScheduleUpdate = false) :
+    (run v s ops).start = s.start ∧ (run v s ops).end_ = s.end_ := by
+  induction ops generalizing s with
+  | nil => exact ⟨rfl, rfl⟩
+  | cons op ops ih =>
+    have h1 : op.isScheduleUpdate = false := h op (by simp)
+    obtain ⟨a, b⟩ := ih (step' v s op) (fun o ho => h o (by simp [ho]))
+    have hf : (step' v s op).start = s.start ∧ (step' v s op).end_ = s.end_ := by
+      unfold step'
+      cases hs : step v s op with
+      | error e => exact ⟨rfl, rfl⟩
+      | ok s' =>
+        have := C12_frame v s s' op hs
+          (fun a t e => by subst e; simp [Op.isScheduleUpdate] at h1)
+          (fun a t e => by subst e; simp [Op.isScheduleUpdate] at h1)
+        exact ⟨this.1, this.2.1⟩
+    simp only [run, List.foldl_cons] at *
+    exact ⟨a.trans hf.1, b.trans hf.2⟩
+
+/-- along a clock-monotone history the block time never decreases -/
+theorem wl_run_now_ge (v : Variant) (ops : List Op) (s : State) (hm : TimeMonotone s.now ops) :
+    s.now ≤ (run v s ops).now := by
+  induction ops generalizing s with
+  | nil => exact Nat.le_refl _
+  | cons op ops ih =>
+    simp only [TimeMonotone] at hm
+    have := ih (step' v s op) (by rw [wl_step'_now]; exact hm.2)
+    rw [wl_step'_now] at this
+    simp only [run, List.foldl_cons] at *
+    omega
+
+/-- flag monotonicity, "started": once `HasStarted` answers true it answers true after every clock-monotone
+continuation (nobody can un-start a whitelist) -/
+theorem C12_started_stays_started (v : Variant) (ops : List Op) (s : State) (hi : WlSInv s)
+    (hst : hasStarted s = true) (hm : TimeMonotone s.now ops) : hasStarted (run v s ops) = true := by
+  have hst' : WlStarted s := by simpa [hasStarted, WlStarted] using hst
+  obtain ⟨_, _, _, h4⟩ := C12_started_frozen v ops s hi hst' hm
+  simpa [hasStarted, WlStarted] using h4
+
+/-- flag monotonicity, "ended": once `HasEnded` answers true (on a well-formed schedule this implies started) it
+answers true after every clock-monotone continuation — an ended whitelist cannot be re-opened, and `IsActive`
+stays false -/
+theorem C12_ended_stays_ended (v : Variant) (ops : List Op) (s : State) (hi : WlSInv s)
+    (hen : hasEnded s = true) (hm : TimeMonotone s.now ops) :
+    hasEnded (run v s ops) = true ∧ isActive (run v s ops) = false := by
+  have he : s.end_ ≤ s.now := by simpa [hasEnded] using hen
+  have hst' : WlStarted s := by unfold WlStarted; unfold WlSInv at hi; omega
+  obtain ⟨_, h2, _, _⟩ := C12_started_frozen v ops s hi hst' hm
+  have hn := wl_run_now_ge v ops s hm
+  have : (run v s ops).end_ ≤ (run v s ops).now := by omega
+  constructor
+  · simpa [hasEnded] using this
+  · simp only [isActive, Bool.and_eq_false_iff, decide_eq_false_iff_not]
+    right; omega
+
+/-- one message signed by a non-admin (or the clock, or an environment message) leaves schedule and admin list alone -/
+theorem wl_nonadmin_step (v : Variant) (s : State) (op : Op)
+    (h : ∀ a, op.sender? = some a → isAdmin s a = false) :
+    (step' v s op).start = s.start ∧ (step' v s op).end_ = s.end_ ∧
+    (step' v s op).admins = s.admins ∧ (step' v s op).adminsMutable = s.adminsMutable := by
+  cases op with
+  | setTime t => simp [step', step]
+  | updateStart a t => have := h a rfl; simp [step', step, this]
+  | updateEnd a t => have := h a rfl; simp [step', step, this]
+  | removeMembers a p => have := h a rfl; by_cases hv : v = .merkle <;> simp [step', step, this, hv]
+  | updatePerAddr n ok => cases ok <;> simp [step', step]
+  | updateAdmins a l => have := h a rfl; simp [step', step, canModify, this]
+  | freeze a => have := h a rfl; simp [step', step, canModify, this]
+  | env ok => cases ok <;> simp [step', step]
+
+/-- history-level "non-admin updates fail": whatever strangers send, in whatever order, at whatever times — as long
+as none of the signed messages (`UpdateStartTime`, `UpdateEndTime`, `RemoveMembers`, `UpdateAdmins`, `Freeze`) is
+signed by an account on the admin list — the schedule and the admin list are at the end what they were at the
+beginning (they cannot even make themselves admins first) -/
+theorem C12_nonadmin_history (v : Variant) (ops : List Op) (s : State)
+    (h : ∀ op ∈ ops, ∀ a, op.sender? = some a → isAdmin s a = false) :
+    (run v s ops).start = s.start ∧ (run v s ops).end_ = s.end_ ∧
+    (run v s ops).admins = s.admins ∧ (run v s ops).adminsMutable = s.adminsMutable := by
+  induction ops generalizing s with
+  | nil => exact ⟨rfl, rfl, rfl, rfl⟩
+  | cons op ops ih =>
+    obtain ⟨a1, a2, a3, a4⟩ := wl_nonadmin_step v s op (h op (by simp))
+    have h' : ∀ o ∈ ops, ∀ a, o.sender? = some a → isAdmin (step' v s op) a = false := by
+      intro o ho a ha
+      have := h o (by simp [ho]) a ha
+      simpa [isAdmin, a3] using this
+    obtain ⟨b1, b2, b3, b4⟩ := ih (step' v s op) h'
+    simp only [run, List.foldl_cons] at *
+    exact ⟨b1.trans a1, b2.trans a2, b3.trans a3, b4.trans a4⟩
+
+/-- OBSERVATION (not a violation of the property as worded, which only constrains *creation*): "a start in the
+future" is not enforced by `UpdateStartTime`. Before the start an admin may move the start to an instant that is
+not after the current block time; the whitelist is then started at once and frozen from that moment. -/
+theorem C12_update_start_may_start_immediately :
+    ∃ (s : State) (a : Addr) (t : Nat), WlSInv s ∧ ¬ WlStarted s ∧ t ≤ s.now ∧
+      WlStarted (step' .plain s (.updateStart a t)) ∧ (step' .plain s (.updateStart a t)).start = t := by
+  refine ⟨{ now := GENESIS + 5, start := GENESIS + 10, end_ := GENESIS + 20, perAddr := 1, admins := [10],
+            adminsMutable := true }, 10, GENESIS + 3, ?_, ?_, ?_, ?_, ?_⟩ <;>
+    simp [WlSInv, WlStarted, step', step, isAdmin, show ¬ (GENESIS + 3 < GENESIS) by omega]
+
+/-- the clock hypothesis of the "once started" theorems is not gratuitous: if block time could go backwards, a started
+whitelist could be un-started and its start moved (the chain, not the contract, rules this out; the harness's lattice
+section F runs such histories against the real code and the model agrees) -/
+theorem C12_started_frozen_needs_monotone_clock :
+    ∃ (s : State) (ops : List Op), WlSInv s ∧ WlStarted s ∧ ¬ TimeMonotone s.now ops ∧
+      (run .plain s ops).start ≠ s.start := by
+  refine ⟨{ now := GENESIS + 10, start := GENESIS + 10, end_ := GENESIS + 20, perAddr := 1, admins := [10],
+            adminsMutable := true }, [.setTime (GENESIS + 5), .updateStart 10 (GENESIS + 15)], ?_, ?_, ?_, ?_⟩ <;>
+    simp [WlSInv, WlStarted, TimeMonotone, opTime, run, step', step, isAdmin,
+      show ¬ (GENESIS + 15 < GENESIS) by omega]
+
 /-! ## Activity flags -/
 
 /-- "active exactly when start <= now < end, started when now >= start, ended when now >= end, and the config
-query reports the same activity" — at every instant, in every state -/
+query reports the same activity" — at every instant, in every state.
+
+Honesty note: the four functions are separate transcriptions of the four Rust query bodies, and this theorem says
+they are the expressions the property names (two of them are syntactically the same expression, so that conjunct is
+`rfl`). It does NOT show that the Rust queries evaluate these expressions on the stored `start_time`/`end_time`;
+that part of the clause is *validated* (harness monitors `query/is-active`, `query/has-started`, `query/has-ended`,
+`query/config-is-active`, `query/config-ne-stored` against the schedule read from storage and the harness's own
+clock), not derived. -/
 theorem C12_flags (s : State) :
     (isActive s = true ↔ s.start ≤ s.now ∧ s.now < s.end_) ∧
     (hasStarted s = true ↔ s.now ≥ s.start) ∧
@@ -400,13 +533,13 @@ theorem C12_flags_consistent (s : State) (hi : WlSInv s) :
 
 /-- the flags after every history (instantiate + any messages) are those of the stored schedule at the current
 block time, and the schedule they are computed from is well-formed -/
-theorem C12_flags_history (v : Variant) (now : Nat) (funds : List Coin) (m : InstMsg) (s0 : State)
-    (h : instantiate v now funds m = .ok s0) (ops : List Op) :
+theorem C12_flags_history (v : Variant) (now : Nat) (envOk : Bool) (m : InstMsg) (s0 : State)
+    (h : instantiate v now envOk m = .ok s0) (ops : List Op) :
     let s := run v s0 ops
     (isActive s = true ↔ s.start ≤ s.now ∧ s.now < s.end_) ∧ (hasStarted s = true ↔ s.now ≥ s.start) ∧
     (hasEnded s = true ↔ s.now ≥ s.end_) ∧ configIsActive s = isActive s ∧
     isActive s = (hasStarted s && !hasEnded s) := by
-  have hi : WlSInv (run v s0 ops) := C12_wellformed v now funds m s0 h ops
+  have hi : WlSInv (run v s0 ops) := C12_wellformed v now envOk m s0 h ops
   obtain ⟨a, b, c, d⟩ := C12_flags (run v s0 ops)
   exact ⟨a, b, c, d, (C12_flags_consistent _ hi).1⟩
 
@@ -414,19 +547,20 @@ theorem C12_flags_history (v : Variant) (now : Nat) (funds : List Coin) (m : Ins
 
 section examples
 def G : Nat := GENESIS
-/-- a plain whitelist created at `G+5` for the window `[G+10, G+20]`, admin 10 -/
+/-- a whitelist created at `G+5` for the window `[G+10, G+20]`, admin 10 -/
 def exMsg : InstMsg :=
-  { start := G + 10, end_ := G + 20, memberLimit := 1000, perAddr := 1, members := [(30, 1), (31, 1)],
-    whaleCap := none, admins := [10], adminsMutable := true, rootOk := true, uriOk := true }
+  { start := G + 10, end_ := G + 20, perAddr := 1, admins := [10], adminsMutable := true }
 def exState : State :=
   { now := G + 5, start := G + 10, end_ := G + 20, perAddr := 1, admins := [10], adminsMutable := true }
 
-example : (instantiate .plain (G + 5) [⟨NATIVE, 100000000⟩] exMsg).toOption = some exState := by decide
-example : (instantiate .flex (G + 5) [⟨NATIVE, 100000000⟩] exMsg).toOption = some { exState with perAddr := 0 } := by decide
-example : (instantiate .merkle (G + 5) [⟨NATIVE, 1000000000⟩] exMsg).toOption = some exState := by decide
+example : (instantiate .plain (G + 5) true exMsg).toOption = some exState := by decide
+example : (instantiate .flex (G + 5) true exMsg).toOption = some { exState with perAddr := 0 } := by decide
+example : (instantiate .merkle (G + 5) true exMsg).toOption = some exState := by decide
+-- a failing non-schedule check (environment) rejects whatever the schedule
+example : (instantiate .merkle (G + 5) false exMsg).isOk = false := by decide
 -- start = now is not "in the future"; start = now + 1 is
-example : (instantiate .plain (G + 10) [⟨NATIVE, 100000000⟩] exMsg).isOk = false := by decide
-example : (instantiate .plain (G + 9) [⟨NATIVE, 100000000⟩] exMsg).isOk = true := by decide
+example : (instantiate .plain (G + 10) true exMsg).isOk = false := by decide
+example : (instantiate .plain (G + 9) true exMsg).isOk = true := by decide
 -- hypotheses of the frozen theorems are satisfiable: started, well-formed
 example : WlSInv { exState with now := G + 10 } ∧ WlStarted { exState with now := G + 10 } := by
   unfold WlSInv WlStarted G GENESIS; decide
@@ -445,6 +579,12 @@ example : run .plain exState [.updateStart 10 5] = { exState with start := G } :
 example : run .plain exState [.updateEnd 99 (G + 12), .updateStart 99 (G + 12)] = exState := by decide
 example : (step .plain exState (.removeMembers 10 true)).isOk = true := by decide
 example : (step .plain { exState with now := G + 10 } (.removeMembers 10 true)).isOk = false := by decide
+-- environment messages and per-address-limit updates never move the schedule, accepted or not
+example : run .plain exState [.env true, .env false, .updatePerAddr 0 true, .updatePerAddr 31 false] = { exState with perAddr := 0 } := by decide
+-- hypotheses of the monotonicity theorems are satisfiable: an ended, well-formed state on a monotone history
+example : WlSInv { exState with now := G + 20 } ∧ hasEnded { exState with now := G + 20 } = true ∧
+    TimeMonotone (G + 20) [.updateEnd 10 (G + 12), .setTime (G + 21), .updateStart 10 (G + 30)] := by
+  unfold WlSInv G GENESIS; simp [hasEnded, TimeMonotone, opTime, exState, G, GENESIS]
 end examples
 
 end LP
